@@ -440,6 +440,8 @@ def run(tier):
     rule_R10(res, prog)
     rule_R11(res, prog)
     rule_R12(res, prog)
+    rule_R13(res, prog)
+    rule_R14(res, prog)
     res.floor("C19.R1", 150)
     res.floor("C19.R2", 3)
     res.floor("C19.R3", 30)
@@ -842,6 +844,38 @@ def rule_R6(res, prog):
                             m.get("f", "").lower().startswith(l["f"].lower()[:6]) and
                             cu.ftext(strip(m.get("b") or m.get("e") or {})) == cu.ftext(strip(l.get("b") or l.get("e") or {}))]
                     if not lens:
+                        # the length field was stored from the very expression the allocation is sized by
+                        # (X->pLen = n; X->p = alloc(.., n)): same base object, same name stem
+                        argtxt = set(cu.ftext(strip(a)) for a in r.get("a", []) if strip(a) is not None and strip(a).get("k") != "int")
+                        succ6 = {bb["id"]: [sc.get("b") for sc in bb["succ"] if sc.get("b") is not None] for bb in fn.blocks}
+
+                        def reaches6(src, dst):
+                            seen6, st6 = set(), list(succ6.get(src, []))
+                            while st6:
+                                q6 = st6.pop()
+                                if q6 == dst:
+                                    return True
+                                if q6 in seen6:
+                                    continue
+                                seen6.add(q6)
+                                st6.extend(succ6.get(q6, []))
+                            return False
+                        for b2 in fn.blocks:
+                            order6 = [i_ for i_, _l, _x in cu.block_exprs(b2)]
+                            for i2, ln2, x2 in cu.block_exprs(b2):
+                                # the length is stored BEFORE the buffer exists
+                                if not ((b2["id"] == b["id"] and idx in order6 and order6.index(i2) < order6.index(idx)) or
+                                        (b2["id"] != b["id"] and reaches6(b2["id"], b["id"]))):
+                                    continue
+                                for m in walk(x2):
+                                    if m.get("k") == "bin" and m["op"] == "=":
+                                        ml = strip(m["l"])
+                                        if ml is not None and ml.get("k") == "mem" and ml.get("f") != l["f"] and \
+                                                ml.get("f", "").lower().startswith(l["f"].lower()[:6]) and \
+                                                cu.ftext(strip(ml.get("b") or ml.get("e") or {})) == cu.ftext(strip(l.get("b") or l.get("e") or {})) and \
+                                                cu.ftext(strip(m["r"]) or {}) in argtxt:
+                                            lens.append(ml)
+                    if not lens:
                         continue
                     L = lens[0]
                     ptxt, ltxt = cu.ftext(l), cu.ftext(L)
@@ -863,11 +897,18 @@ def rule_R6(res, prog):
                                 return True
                         return False
 
-                    def clears(e, ltxt=ltxt, ptxt=ptxt):
+                    retvars = set((strip(xr.get("e")) or {}).get("n") for bb in fn.blocks for i_, l_, xr in cu.block_exprs(bb)
+                                  if xr.get("k") == "ret" and xr.get("e") is not None and (strip(xr["e"]) or {}).get("k") == "var")
+
+                    def clears(e, ltxt=ltxt, ptxt=ptxt, retvars=retvars):
                         for m in walk(e):
                             if m.get("k") == "bin" and m["op"] == "=":
                                 lt = cu.ftext(strip(m["l"]))
                                 r_ = strip(m["r"])
+                                lv = strip(m["l"])
+                                if lv is not None and lv.get("k") == "var" and lv.get("n") in retvars and r_ is not None and \
+                                        ((r_.get("k") == "int" and r_["v"] < 0) or (r_.get("k") == "un" and r_["op"] == "-")):
+                                    return True        # rc = <error>; goto out; .. return rc
                                 if lt == ltxt and r_ is not None and r_.get("k") == "int" and r_["v"] == 0:
                                     return True
                                 if lt == ptxt and m is not node:
@@ -1500,4 +1541,140 @@ def rule_R12(res, prog):
                                      "allocated after the application deleted everything it holds" % (fn.relfile, ln, fn.name, r["fn"]),
                                      file=fn.relfile, line=ln)
                     res.instance(rid, "%s:%s ssl->sid allocated on the server side" % (fn.name, ln), ok, finding=f_)
+    res.floor(rid, 1)
+
+
+def rule_R13(res, prog):
+    """'nothing leaked once the application deletes its objects' for buffers that grow: a failed realloc leaves the old block
+    valid.  For every realloc of a buffer owned by a structure field F: (a) the result is not stored straight into F
+    (`F = realloc(F, n)` loses the block on failure), and (b) on the path where the result is NULL no store clears F unless
+    the old block was freed first - otherwise the block is unreachable for the destructor and the object goes on without
+    its buffer."""
+    from sa import cfgutil as cu
+    from sa.pp import pp
+    rid = "C19.R13"
+    res.rule(rid, "a failed realloc of a field's buffer neither overwrites nor clears the field (the old block stays owned)")
+    RE = {"realloc", "psRealloc", "Realloc"}
+    FREE = {"free", "psFreeNoPool", "psFreeNative", "Free"}
+    n = 0
+    for fn in sorted(prog.functions.values(), key=lambda f: f.qname):
+        if not fn.blocks or fn.relfile.startswith(("crypto/test", "matrixssl/test", "apps/", "core/test", "core/osdep")):
+            continue
+        for b in fn.blocks:
+            for idx, ln, x in cu.block_exprs(b):
+                for node in walk(x):
+                    if node.get("k") != "bin" or node["op"] != "=":
+                        continue
+                    r = strip(node["r"])
+                    while r is not None and r.get("k") == "cast":
+                        r = strip(r["e"])
+                    if r is None or r.get("k") != "call" or r.get("fn") not in RE or not r.get("a"):
+                        continue
+                    F = strip(r["a"][0])
+                    while F is not None and F.get("k") == "cast":
+                        F = strip(F["e"])
+                    if F is None or F.get("k") != "mem":
+                        continue
+                    n += 1
+                    ftxt = cu.ftext(F)
+                    dst = strip(node["l"])
+                    dtxt = cu.ftext(dst)
+                    bad = None
+                    if dtxt == ftxt:
+                        bad = "the result is stored straight into %s: on failure the only pointer to the old block is overwritten with NULL" % ftxt
+                    else:
+                        def nonnull_edge(bb, k, dtxt=dtxt):
+                            t = bb.get("term")
+                            if t is None or "c" not in t or len(bb["succ"]) != 2:
+                                return False
+                            for (txt, tr, nd) in cu._cond_atoms(t["c"], k == 0):
+                                nd = strip(nd)
+                                if nd is None:
+                                    continue
+                                if tr and (cu.ftext(nd) == dtxt or (nd.get("k") == "bin" and nd["op"] == "=" and cu.ftext(strip(nd["l"])) == dtxt)):
+                                    return True
+                                if (not tr) and nd.get("k") == "bin" and nd["op"] == "==" and \
+                                        (cu.ftext(strip(nd["l"])) == dtxt or (strip(nd["l"]) or {}).get("k") == "bin" and cu.ftext(strip(strip(nd["l"])["l"])) == dtxt):
+                                    return True
+                            return False
+
+                        def frees(e, ftxt=ftxt):
+                            return any(m.get("k") == "call" and m.get("fn") in FREE and m.get("a") and cu.ftext(strip(m["a"][0])) == ftxt
+                                       for m in walk(e))
+
+                        def clears(e, ftxt=ftxt, node=node):
+                            for m in walk(e):
+                                if m.get("k") == "bin" and m["op"] == "=" and m is not node and cu.ftext(strip(m["l"])) == ftxt:
+                                    rr = strip(m["r"])
+                                    while rr is not None and rr.get("k") == "cast":
+                                        rr = strip(rr["e"])
+                                    if rr is not None and rr.get("k") == "int" and rr["v"] == 0:
+                                        return True
+                            return False
+                        esc = cu.escapes(fn, (b["id"], idx), frees, exempt_edge=nonnull_edge, target_expr=clears)
+                        if esc is not None:
+                            bad = "on the path where the result is NULL (via lines %s) %s is set to NULL without the old block having been freed" % (
+                                [p_[1] for p_ in esc[-5:]], ftxt)
+                    f_ = None
+                    if bad is not None:
+                        f_ = Finding(PROP, rid, fn.name, "old block lost when realloc fails",
+                                     "%s:%s %s(): %s = realloc(%s, ..): %s - a failed realloc leaves the old block allocated, so it leaks and the "
+                                     "object continues without its buffer" % (fn.relfile, ln, fn.name, dtxt, ftxt, bad), file=fn.relfile, line=ln)
+                    res.instance(rid, "%s:%s realloc(%s) failure keeps the old block owned" % (fn.name, ln, ftxt), bad is None, finding=f_)
+    res.floor(rid, 8)
+
+
+def rule_R14(res, prog):
+    """'an allocation failure ... leaves every object consistent': a copy routine (two parameters of the same structure
+    pointer type, one written, one only read) never hands its SOURCE to a releasing function - on its own failure it may
+    only undo what it put into the destination.  (psEccCopyKey cleared the source on failure: the ephemeral ECDHE key cached
+    in the shared sslKeys_t was wiped under its users.)"""
+    import re
+    from sa import cfgutil as cu
+    rid = "C19.R14"
+    res.rule(rid, "a copy routine's failure path never releases or clears the source object")
+    REL = re.compile(r"(Clear|clear|Free|free|Delete|Zero|zero|Deinit|Uninit)")
+    n = 0
+    for fn in sorted(prog.functions.values(), key=lambda f: f.qname):
+        if not fn.blocks or "Copy" not in fn.name or fn.relfile.startswith(("crypto/test", "matrixssl/test", "apps/", "core/test")):
+            continue
+        ptrs = [p_ for p_ in fn.params if (p_.get("t") or "").rstrip().endswith("*")]
+        by_t = {}
+        for p_ in ptrs:
+            by_t.setdefault((p_["t"] or "").replace("const ", "").strip(), []).append(p_)
+        pair = next((v for v in by_t.values() if len(v) == 2), None)
+        if pair is None:
+            continue
+        written = set()
+        for b in fn.blocks:
+            for i, ln, x in cu.block_exprs(b):
+                for m in walk(x):
+                    if m.get("k") == "bin" and m["op"] == "=":
+                        l = strip(m["l"])
+                        while l is not None and l.get("k") in ("mem", "idx"):
+                            l = strip(l.get("b") or l.get("e"))
+                        if l is not None and l.get("k") == "var" and l.get("sc") == "p":
+                            written.add(l.get("id"))
+        srcs = [p_ for p_ in pair if p_.get("id") not in written]
+        if len(srcs) != 1:
+            continue
+        src = srcs[0]
+        n += 1
+        bad = None
+        for b, ln, c in fn.calls():
+            if not c.get("fn") or not REL.search(c["fn"]):
+                continue
+            for a in c.get("a", []):
+                base = strip(a)
+                while base is not None and base.get("k") in ("cast", "un", "mem", "idx"):
+                    base = strip(base.get("e") or base.get("b"))
+                if base is not None and base.get("k") == "var" and base.get("id") == src.get("id"):
+                    bad = (ln, c["fn"])
+        f_ = None
+        if bad:
+            f_ = Finding(PROP, rid, fn.name, "copy routine releases its source",
+                         "%s:%s %s(): %s() is applied to the source parameter `%s`: when the copy fails (allocation failure) the object being "
+                         "copied FROM is wiped although others still use it, and what was copied into the destination is not undone" % (
+                             fn.relfile, bad[0], fn.name, bad[1], src.get("n")), file=fn.relfile, line=bad[0])
+        res.instance(rid, "%s: source parameter `%s` is never released" % (fn.name, src.get("n")), bad is None, finding=f_)
     res.floor(rid, 1)
